@@ -227,6 +227,30 @@ func TestC06(t *testing.T) {
 				failRapid(rt, r, caseOf("C06", "pieces", b, err), err)
 			}
 		})
+		// 5b. an escape early, then a long plain run, then \\u escapes, with more than a KiB of
+		// document after the string (scratch reservations capped at a round size)
+		if e.enumStage("late-unicode-escape", "escape + plain run of L bytes (L round 256/512/1024/2048/4096 +-8) + \\u escape(s) + closing quote + 0 or 1200 trailing bytes", true) {
+			idx := 0
+		late:
+			for _, base := range []int{256, 512, 1024, 2048, 4096} {
+				for L := base - 8; L <= base+8; L++ {
+					for _, esc := range []string{`\u00e9`, `\ud83d\ude00`, `\u0041\u0042\u0043`, `\ud800`} {
+						for _, pad := range []int{0, 1200} {
+							idx++
+							if !e.cfg.Mine(idx) {
+								continue
+							}
+							b := append([]byte(`"\n`), bytes.Repeat([]byte("p"), L)...)
+							b = append(append(b, esc...), '"')
+							b = append(b, bytes.Repeat([]byte(" "), pad)...)
+							if !run("late-unicode-escape", b) {
+								break late
+							}
+						}
+					}
+				}
+			}
+		}
 		// 6. growth boundaries: a plain run of length L, then an escape, then a tail
 		if e.enumStage("growth", "plain run of L bytes (L in 0..70 and powers of two +-1 up to 4097) + each escape kind + 15 tails of length 0..12 (word-at-a-time scanners: every offset modulo 8 and distance from the end)", true) {
 			escs := []string{`\n`, `\"`, `\\`, `A`, `é`, `€`, `😀`, `\ud800`, `\udc00x`, "\xff", "é"}
